@@ -173,9 +173,10 @@ class C13(Check):
                 if any(o['lib'] == 'sat' for o in spec['ops'].values()) and rng.random() < (0.5 if stratum == 'S-torch' else 0.12):
                     ops[-1]['custom_ops'] = True      # this run brings its own definition of tanh (keyword `ops`)
                 if spec.get('build') == 'yaml' and stratum != 'S-fortran' and rng.random() < 0.35 \
-                        and not any(o['op'] == 'update_var' for o in ops):
+                        and not any(o['op'] == 'update_var' for o in ops) and ops[-2]['op'] == 'construct':
                     # pyrates.integrate(<template path>, ...): the FILE is simulated (whether the path cache still holds the
-                    # template or another workflow's clear dropped it) - only used while object and file say the same
+                    # template or another workflow's clear dropped it) - only used while object and file say the same: right
+                    # after the build (a template that went through an in_place=False compile carries KF-C14's bookkeeping)
                     ops[-1]['via'] = 'integrate'
             else:
                 api = 'get_jacobian_func' if kind == 'jac' else 'get_run_func'
